@@ -1008,6 +1008,8 @@ def b_r15_only_header_errors_out_of_parse(p: Project, rep: Report):
         elif isinstance(arg, ast.Constant) and isinstance(arg.value, str):
             ok = all(g is not None and arg.value in g for g in groups)
             why = f"'{arg.value}' is not a group of both header patterns"
+        elif isinstance(arg, ast.Name) and any(isinstance(g_, (ast.comprehension, ast.For)) and isinstance(g_.target, ast.Name) and g_.target.id == arg.id and (text(g_.iter).endswith(".groupindex") or text(g_.iter).endswith(".groupindex.keys()") or text(g_.iter).endswith(".groupdict()") or text(g_.iter).endswith(".groupdict().keys()")) for g_ in ast.walk(fn)):
+            ok, why = True, ""  # the pattern's own group names
         else:
             ok, why = False, f"the group is named by `{text(arg)[:30]}`, a run-time value: for the version-1 pattern (upper-case groups) a lower-cased field name raises IndexError"
         rep.check("B-R15", f"parse:match-lookup:{text(x)[:40]}", ok, f"{text(x)[:50]}: {why} - a header text that should be refused with OFXHeaderError fails with IndexError instead" if not ok else "", hloc(p, x))
